@@ -9,6 +9,7 @@ func main() {
 		"probe": probeMode,
 		"sharedpoll": sharedPollMode,
 		"spfree":     sharedPollFreeMode,
+		"trackclose": trackCloseMode,
 		"mapdelta":   mapDeltaMode,
 	})
 }
